@@ -1414,7 +1414,7 @@ Proof.
   - intros g a' Eg. destruct (PF _ _ Eg) as (a & Ea & L1 & L2 & L3 & L4 & _). eauto 10.
   - intros g a Eg. destruct (PB _ _ Eg) as (a' & Ea' & _). eauto.
   - exact RF.
-  - intros r0 rs0 Er. destruct (RB _ _ Er) as (rs' & Ers' & _). eauto.
+  - intros rx rsx Er. destruct (RB _ _ Er) as (rs' & Ers' & _). eauto.
 Qed.
 
 Lemma pframe_parent : forall w r f h w', keys_ok w -> parent_object w r f h = Some w' -> pframe w w'.
@@ -1426,7 +1426,7 @@ Proof.
   - intros g a' Eg. destruct (PO _ _ Eg) as (a & Ea & L1 & L2 & L3 & L4 & _). eauto 10.
   - intros g a Eg. destruct (frame_obj_rev _ _ _ _ F Eg) as (a' & Ea' & _). eauto.
   - exact PR.
-  - intros r0 rs0 Er. destruct (frame_rs_rev _ _ _ _ F Er) as (rs' & Ers' & _). eauto.
+  - intros rx rsx Er. destruct (frame_rs_rev _ _ _ _ F Er) as (rs' & Ers' & _). eauto.
 Qed.
 
 Lemma pframe_set_rs : forall w r rs rs', get_rs w r = Some rs -> r_local rs' = r_local rs -> pframe w (set_rs w r rs').
@@ -1468,4 +1468,507 @@ Proof.
       assert (Hfs : fulls rs (c :: t) = cf :: fulls rs t) by (unfold fulls; simpl; rewrite Ec; reflexivity).
       rewrite Hfs. unfold odet, oset. cbn [mem existsb]. destruct (g =? cf); cbn [orb]; [|reflexivity].
       destruct (mem g (fulls rs t)); reflexivity.
+Qed.
+
+(* ---------- opening a key: nothing is bookkept under it any more ---------- *)
+Lemma TreeG_open : forall w O r l, TreeG w O None ->
+  (forall rs c cf co, get_rs w r = Some rs -> aget c (r_local rs) = Some cf -> get_obj w cf = Some co -> ~ bk O co l) ->
+  TreeG w O (Some (r, l)).
+Proof.
+  intros w O r l T Hno. assert (KN : forall a b, kne None a b) by (intros a b Hk; discriminate). constructor.
+  - apply (tC1 _ _ _ T).
+  - intros. eapply (tC2 _ _ _ T); eauto.
+  - apply (tC3 _ _ _ T).
+  - intros r0 rs p ls c E1 E2 I. destruct (tO1 _ _ _ T _ _ _ _ _ E1 E2 I) as (A1 & A2 & A3). split; [exact A1|]. split; [intros _; apply A2; apply KN|exact A3].
+  - intros r0 rs c cf co p E1 E2 E3 B [Hn|Hn].
+    + eapply (tO2 _ _ _ T); eauto.
+    + inversion Hn; subst. exfalso. eapply Hno; eauto.
+  - apply (tO3 _ _ _ T).
+Qed.
+
+(* TreeG only reads the world through get_obj / get_rs *)
+Lemma TreeG_wext : forall w w' O K, (forall g, get_obj w' g = get_obj w g) -> (forall r, get_rs w' r = get_rs w r) ->
+  TreeG w O K -> TreeG w' O K.
+Proof.
+  intros w w' O K H1 H2 T. eapply tframe_TreeG; [|exact T]. split; intros; [rewrite H1|rewrite H2]; reflexivity.
+Qed.
+
+(* ---------- _track_orphan of a detached, indexed object under an unknown (or open) parent key ---------- *)
+Lemma TreeG_track_orphan : forall w O K r rs c cf co l, Base w -> TreeG w O K -> get_rs w r = Some rs ->
+  aget c (r_local rs) = Some cf -> get_obj w cf = Some co -> O cf = Some None -> l <> 0 ->
+  (aget l (r_local rs) = None \/ K = Some (r, l)) ->
+  TreeG (set_rs w r (track_orphan rs c l)) (oset O cf (Some l)) K.
+Proof.
+  intros w O K r rs c cf co l [Kw W2] T Ers Ec Eco HO Hl0 HK.
+  set (w' := set_rs w r (track_orphan rs c l)).
+  pose proof (Kw _ _ Eco) as Kcf.
+  assert (NB : forall p, ~ bk O co p).
+  { intros p [B _]. unfold epar in B. rewrite Kcf, HO in B. discriminate. }
+  destruct (W2 _ _ _ _ Ers Ec) as (co0 & Eco0 & Hlc & Hrc). rewrite Eco in Eco0. inversion Eco0; subst co0.
+  assert (IDX : forall r0 rs0 c', get_rs w r0 = Some rs0 -> aget c' (r_local rs0) = Some cf -> r0 = r /\ c' = c).
+  { intros r0 rs0 c' E1 E2. destruct (W2 _ _ _ _ E1 E2) as (a & Ea & Hla & Hra). rewrite Eco in Ea. inversion Ea; subst a. split; congruence. }
+  assert (RS : forall r0 rs', get_rs w' r0 = Some rs' ->
+            exists rs0, get_rs w r0 = Some rs0 /\ r_local rs' = r_local rs0 /\
+              (r0 <> r -> r_orphans rs' = r_orphans rs0) /\ (r0 = r -> rs0 = rs /\ rs' = track_orphan rs c l)).
+  { intros r0 rs' E. unfold w' in E. rewrite get_rs_set_rs in E. destruct (r0 =? r) eqn:Q.
+    - apply N.eqb_eq in Q. subst r0. inversion E; subst rs'. exists rs. repeat split; auto; congruence.
+    - apply N.eqb_neq in Q. exists rs'. repeat split; auto; congruence. }
+  assert (RSb : forall r0 rs0, get_rs w r0 = Some rs0 -> exists rs', get_rs w' r0 = Some rs' /\ r_local rs' = r_local rs0).
+  { intros r0 rs0 E. unfold w'. rewrite get_rs_set_rs. destruct (r0 =? r) eqn:Q.
+    - apply N.eqb_eq in Q. subst r0. rewrite Ers in E. inversion E; subst rs0. eauto.
+    - eauto. }
+  assert (BKo : forall g a p, get_obj w g = Some a -> g <> cf -> (bk (oset O cf (Some l)) a p <-> bk O a p)).
+  { intros g a p Eg Hne. apply bk_oset_other. rewrite (Kw _ _ Eg). exact Hne. }
+  constructor.
+  - intros pf po c' cf' E I. change (get_obj w pf = Some po) in E.
+    destruct (tC1 _ _ _ T _ _ _ _ E I) as (a & rs0 & A1 & A2 & A3 & A4 & A5 & A6 & A7).
+    assert (Hne : cf' <> cf) by (intro; subst cf'; rewrite Eco in A1; inversion A1; subst a; exact (NB _ A4)).
+    destruct (RSb _ _ A5) as (rs' & Ers' & Lrs'). exists a, rs'. split; [exact A1|]. split; [exact A2|]. split; [exact A3|].
+    split; [apply (BKo _ _ _ A1 Hne); exact A4|]. rewrite Lrs'. auto.
+  - intros r0 rs' c' cf' a p pf po E1 E2 E3 B E4 E5 Kn. change (get_obj w cf' = Some a) in E3. change (get_obj w pf = Some po) in E5.
+    destruct (RS _ _ E1) as (rs0 & Ers0 & Lrs & _). rewrite Lrs in E2, E4.
+    destruct (N.eq_dec cf' cf) as [->|Hne].
+    + exfalso. rewrite Eco in E3. inversion E3; subst a. apply bk_oset_some in B; [|exact Kcf]. destruct B as [<- _].
+      destruct (IDX _ _ _ Ers0 E2) as [-> _]. assert (rs0 = rs) by congruence. subst rs0.
+      destruct HK as [HK|HK]; [congruence|]. apply Kn. exact HK.
+    + eapply (tC2 _ _ _ T); eauto. apply (BKo _ _ _ E3 Hne). exact B.
+  - intros pf po E. eapply (tC3 _ _ _ T); eauto.
+  - intros r0 rs' p ls' c' E1 E2 I.
+    destruct (RS _ _ E1) as (rs0 & Ers0 & Lrs & Rsame & Rmod).
+    assert (Cases : (r0 = r /\ p = l /\ c' = c) \/ exists ls, aget p (r_orphans rs0) = Some ls /\ In c' ls).
+    { destruct (N.eq_dec r0 r) as [->|Hr0].
+      - destruct (Rmod eq_refl) as [-> ->]. rewrite track_orphan_get in E2. destruct (p =? l) eqn:Qp.
+        + apply N.eqb_eq in Qp. subst p. inversion E2; subst ls'. destruct (aget l (r_orphans rs)) as [ls|] eqn:El.
+          * apply in_app_iff in I. destruct I as [I|[I|[]]]; [right; eauto|left; auto].
+          * destruct I as [I|[]]. left; auto.
+        + right; eauto.
+      - rewrite (Rsame Hr0) in E2. right; eauto. }
+    destruct Cases as [(-> & -> & ->)|(ls & El & Il)].
+    + destruct (Rmod eq_refl) as [-> _]. split; [exact Hl0|]. split.
+      * intros Kn. rewrite Lrs. destruct HK as [HK|HK]; [exact HK|]. exfalso. apply Kn. exact HK.
+      * exists cf, co. rewrite Lrs. split; [exact Ec|]. split; [exact Eco|]. apply bk_oset_some; [exact Kcf|]. split; [reflexivity|exact Hl0].
+    + destruct (tO1 _ _ _ T _ _ _ _ _ Ers0 El Il) as (A1 & A2 & cf' & a & A3 & A4 & A5).
+      split; [exact A1|]. split; [rewrite Lrs; exact A2|].
+      assert (Hne : cf' <> cf) by (intro; subst cf'; rewrite Eco in A4; inversion A4; subst a; exact (NB _ A5)).
+      exists cf', a. rewrite Lrs. split; [exact A3|]. split; [exact A4|]. apply (BKo _ _ _ A4 Hne). exact A5.
+  - intros r0 rs' c' cf' a p E1 E2 E3 B Hn. change (get_obj w cf' = Some a) in E3.
+    destruct (RS _ _ E1) as (rs0 & Ers0 & Lrs & Rsame & Rmod). rewrite Lrs in E2, Hn.
+    destruct (N.eq_dec cf' cf) as [->|Hne].
+    + rewrite Eco in E3. inversion E3; subst a. apply bk_oset_some in B; [|exact Kcf]. destruct B as [<- _].
+      destruct (IDX _ _ _ Ers0 E2) as [-> ->]. destruct (Rmod eq_refl) as [-> ->]. rewrite track_orphan_get, N.eqb_refl.
+      eexists; split; [reflexivity|]. destruct (aget l (r_orphans rs)); [apply in_app_iff; right|]; left; reflexivity.
+    + apply (BKo _ _ _ E3 Hne) in B. destruct (tO2 _ _ _ T _ _ _ _ _ _ Ers0 E2 E3 B Hn) as (ls & El & Il).
+      destruct (N.eq_dec r0 r) as [->|Hr0].
+      * destruct (Rmod eq_refl) as [-> ->]. rewrite track_orphan_get. destruct (p =? l) eqn:Qp; [|eauto].
+        apply N.eqb_eq in Qp. subst p. rewrite El. eexists; split; [reflexivity|]. apply in_app_iff. left. exact Il.
+      * rewrite (Rsame Hr0). eauto.
+  - intros r0 rs' p ls' E1 E2. destruct (RS _ _ E1) as (rs0 & Ers0 & Lrs & Rsame & Rmod).
+    destruct (N.eq_dec r0 r) as [->|Hr0]; [|rewrite (Rsame Hr0) in E2; eapply (tO3 _ _ _ T); eauto].
+    destruct (Rmod eq_refl) as [-> ->]. rewrite track_orphan_get in E2. destruct (p =? l) eqn:Qp; [|eapply (tO3 _ _ _ T); eauto].
+    apply N.eqb_eq in Qp. subst p. inversion E2; subst ls'. destruct (aget l (r_orphans rs)) as [ls|] eqn:El.
+    + apply app_one_NoDup; [eapply (tO3 _ _ _ T); eauto|]. intro Il.
+      destruct (tO1 _ _ _ T _ _ _ _ _ Ers El Il) as (_ & _ & cf' & a & A3 & A4 & A5).
+      rewrite Ec in A3. inversion A3; subst cf'. rewrite Eco in A4. inversion A4; subst a. exact (NB _ A5).
+    + constructor; [simpl; tauto|constructor].
+Qed.
+
+(* ---------- second loop of untrack_object: the detached children become orphans of l ---------- *)
+Definition oatt (O : ovr) (fs : list N) (l : N) : ovr := fun g => if mem g fs then Some (Some l) else O g.
+
+Lemma set_rs_twice : forall w r a b O K, TreeG (set_rs (set_rs w r a) r b) O K -> TreeG (set_rs w r b) O K.
+Proof.
+  intros w r a b O K T. eapply TreeG_wext; [| |exact T].
+  - intros g. reflexivity.
+  - intros r0. rewrite !get_rs_set_rs. destruct (r0 =? r); reflexivity.
+Qed.
+
+Lemma orphan_children_TreeG : forall ids w O K r rs l, Base w -> TreeG w O K -> get_rs w r = Some rs -> NoDup ids ->
+  (ids <> [] -> l <> 0) -> (aget l (r_local rs) = None \/ K = Some (r, l)) ->
+  (forall c, In c ids -> exists cf co, aget c (r_local rs) = Some cf /\ get_obj w cf = Some co /\ O cf = Some None) ->
+  TreeG (set_rs w r (orphan_children rs ids l)) (oatt O (fulls rs ids) l) K.
+Proof.
+  induction ids as [|c t IH]; intros w O K r rs l Bw T Ers ND Hl HK Hc; simpl.
+  - eapply TreeG_wext; [| |eapply TreeG_ext; [|exact T]].
+    + reflexivity.
+    + intros r0. rewrite get_rs_set_rs. destruct (r0 =? r) eqn:Q; [|reflexivity]. apply N.eqb_eq in Q. subst. symmetry. exact Ers.
+    + intros g. reflexivity.
+  - assert (Hl0 : l <> 0) by (apply Hl; discriminate).
+    destruct (Hc c (or_introl eq_refl)) as (cf & co & Ec & Eco & HO).
+    pose proof (TreeG_track_orphan _ _ _ _ _ _ _ _ _ Bw T Ers Ec Eco HO Hl0 HK) as T1.
+    set (rs1 := track_orphan rs c l) in *. set (w1 := set_rs w r rs1) in *.
+    assert (B1 : Base w1) by (eapply pframe_Base; [eapply pframe_set_rs; [exact Ers|reflexivity]|exact Bw]).
+    assert (Ers1 : get_rs w1 r = Some rs1) by (unfold w1; rewrite get_rs_set_rs, N.eqb_refl; reflexivity).
+    assert (Hnc : ~ In c t) by (inversion ND; assumption). assert (NDt : NoDup t) by (inversion ND; assumption).
+    destruct Bw as [Kw W2].
+    assert (T2 : TreeG (set_rs w1 r (orphan_children rs1 t l)) (oatt (oset O cf (Some l)) (fulls rs1 t) l) K).
+    { apply IH; auto.
+      intros c' Ic'. destruct (Hc c' (or_intror Ic')) as (cf' & co' & Ec' & Eco' & HO').
+      exists cf', co'. split; [exact Ec'|]. split; [exact Eco'|]. unfold oset. destruct (cf' =? cf) eqn:Q; [|exact HO'].
+      apply N.eqb_eq in Q. subst cf'. destruct (W2 _ _ _ _ Ers Ec) as (a & Ea & Hla & _). destruct (W2 _ _ _ _ Ers Ec') as (a' & Ea' & Hla' & _).
+      congruence. }
+    apply set_rs_twice in T2. eapply TreeG_ext; [|exact T2].
+    intros g. rewrite Ec. cbn [app]. rewrite (fulls_local rs rs1 t eq_refl). unfold oatt, oset. cbn [mem existsb].
+    destruct (g =? cf); cbn [orb]; [|reflexivity]. destruct (mem g (fulls rs t)); reflexivity.
+Qed.
+
+(* ---------- del localid_lookup[l]: the open key closes ---------- *)
+Lemma TreeG_unindex : forall w O r rs l x ox, Base w -> TreeG w O (Some (r, l)) -> get_rs w r = Some rs ->
+  aget l (r_local rs) = Some x -> get_obj w x = Some ox -> O x = Some None -> o_children ox = [] ->
+  TreeG (set_rs w r (with_local rs (adel l (r_local rs)))) O None.
+Proof.
+  intros w O r rs l x ox [Kw W2] T Ers Elx Eox HO Hch.
+  set (w' := set_rs w r (with_local rs (adel l (r_local rs)))).
+  pose proof (Kw _ _ Eox) as Kx.
+  assert (NB : forall p, ~ bk O ox p).
+  { intros p [B _]. unfold epar in B. rewrite Kx, HO in B. discriminate. }
+  assert (LOC : forall r0 rs', get_rs w' r0 = Some rs' ->
+            exists rs0, get_rs w r0 = Some rs0 /\ r_orphans rs' = r_orphans rs0 /\
+              forall c, aget c (r_local rs') = if (r0 =? r) && (c =? l) then None else aget c (r_local rs0)).
+  { intros r0 rs' E. unfold w' in E. rewrite get_rs_set_rs in E. destruct (r0 =? r) eqn:Q.
+    - apply N.eqb_eq in Q. subst r0. inversion E; subst rs'. exists rs. split; [exact Ers|]. split; [reflexivity|].
+      intros c. cbn [r_local with_local andb]. apply aget_adel.
+    - exists rs'. split; [exact E|]. split; [reflexivity|]. intros c. reflexivity. }
+  assert (LOCb : forall r0 rs0, get_rs w r0 = Some rs0 -> exists rs', get_rs w' r0 = Some rs' /\ r_orphans rs' = r_orphans rs0 /\
+              forall c, aget c (r_local rs') = if (r0 =? r) && (c =? l) then None else aget c (r_local rs0)).
+  { intros r0 rs0 E. unfold w'. rewrite get_rs_set_rs. destruct (r0 =? r) eqn:Q.
+    - apply N.eqb_eq in Q. subst r0. rewrite Ers in E. inversion E; subst rs0. eexists. split; [reflexivity|]. split; [reflexivity|].
+      intros c. cbn [r_local with_local andb]. apply aget_adel.
+    - exists rs0. split; [exact E|]. split; [reflexivity|]. intros c. reflexivity. }
+  (* an entry that resolves to a bookkept object is not x's entry *)
+  assert (NOTX : forall r0 rs0 c cf a p, get_rs w r0 = Some rs0 -> aget c (r_local rs0) = Some cf -> get_obj w cf = Some a -> bk O a p ->
+                 (r0 =? r) && (c =? l) = false).
+  { intros r0 rs0 c cf a p E1 E2 E3 B. destruct (r0 =? r) eqn:Q1; [|reflexivity]. destruct (c =? l) eqn:Q2; [|reflexivity].
+    apply N.eqb_eq in Q1, Q2. subst. assert (rs0 = rs) by congruence. subst rs0. rewrite Elx in E2. inversion E2; subst cf.
+    rewrite Eox in E3. inversion E3; subst a. destruct (NB _ B). }
+  constructor.
+  - intros pf po c cf E I. change (get_obj w pf = Some po) in E.
+    destruct (tC1 _ _ _ T _ _ _ _ E I) as (a & rs0 & A1 & A2 & A3 & A4 & A5 & A6 & A7).
+    destruct (LOCb _ _ A5) as (rs' & E' & _ & L').
+    exists a, rs'. split; [exact A1|]. split; [exact A2|]. split; [exact A3|]. split; [exact A4|]. split; [exact E'|].
+    rewrite !L', (NOTX _ _ _ _ _ _ A5 A6 A1 A4).
+    assert (Q : (o_region po =? r) && (o_lid po =? l) = false).
+    { destruct (o_region po =? r) eqn:Q1; [|reflexivity]. destruct (o_lid po =? l) eqn:Q2; [|reflexivity].
+      apply N.eqb_eq in Q1, Q2. rewrite Q1 in A5. assert (rs0 = rs) by congruence. subst rs0. rewrite Q2, Elx in A7. inversion A7; subst pf.
+      rewrite Eox in E. inversion E; subst po. rewrite Hch in I. destruct I. }
+    rewrite Q. auto.
+  - intros r0 rs' c cf a p pf po E1 E2 E3 B E4 E5 _. change (get_obj w cf = Some a) in E3. change (get_obj w pf = Some po) in E5.
+    destruct (LOC _ _ E1) as (rs0 & Ers0 & _ & L'). rewrite L' in E2, E4.
+    destruct ((r0 =? r) && (c =? l)); [discriminate|]. destruct ((r0 =? r) && (p =? l)) eqn:Qp; [discriminate|].
+    eapply (tC2 _ _ _ T); eauto. intro Hk. inversion Hk; subst. rewrite !N.eqb_refl in Qp. discriminate.
+  - intros pf po E. eapply (tC3 _ _ _ T); eauto.
+  - intros r0 rs' p ls c E1 E2 I. destruct (LOC _ _ E1) as (rs0 & Ers0 & Lo & L'). rewrite Lo in E2.
+    destruct (tO1 _ _ _ T _ _ _ _ _ Ers0 E2 I) as (A1 & A2 & cf & a & A3 & A4 & A5).
+    split; [exact A1|]. split.
+    + intros _. rewrite L'. destruct ((r0 =? r) && (p =? l)) eqn:Qp; [reflexivity|]. apply A2. intro Hk. inversion Hk; subst.
+      rewrite !N.eqb_refl in Qp. discriminate.
+    + exists cf, a. rewrite L', (NOTX _ _ _ _ _ _ Ers0 A3 A4 A5). auto.
+  - intros r0 rs' c cf a p E1 E2 E3 B Hn. change (get_obj w cf = Some a) in E3.
+    destruct (LOC _ _ E1) as (rs0 & Ers0 & Lo & L'). rewrite L' in E2. rewrite Lo.
+    destruct ((r0 =? r) && (c =? l)); [discriminate|]. destruct Hn as [Hn|Hn]; [|discriminate]. rewrite L' in Hn.
+    eapply (tO2 _ _ _ T); eauto. destruct ((r0 =? r) && (p =? l)) eqn:Qp; [|left; exact Hn].
+    right. apply andb_prop in Qp. destruct Qp as [Q1 Q2]. apply N.eqb_eq in Q1, Q2. subst. reflexivity.
+  - intros r0 rs' p ls E1 E2. destruct (LOC _ _ E1) as (rs0 & Ers0 & Lo & L'). rewrite Lo in E2. eapply (tO3 _ _ _ T); eauto.
+Qed.
+
+(* ---------- untrack_object of an attached, indexed object: it ends detached and un-indexed ---------- *)
+Lemma untrack_object_TreeG : forall w r x o w', Idx w -> Tree w -> get_obj w x = Some o -> o_region o = r ->
+  untrack_object w r x = Some w' ->
+  TreeG w' (oset no_ovr x None) None /\
+  exists o', get_obj w' x = Some o' /\ pcore o' = pcore o /\ o_children o' = [].
+Proof.
+  intros w r x o w' I T Eo Hr H. pose proof I as (Kw & W2 & W3). pose proof (Idx_Base _ I) as Bw.
+  destruct (W3 _ _ Eo) as (rs & Ers & _ & Elx). rewrite Hr in Ers. set (l := o_lid o) in *.
+  unfold untrack_object in H. rewrite Eo in H. cbn [bind] in H. set (former := map fst (o_children o)) in *.
+  bind_inv H. rename w0 into w1.
+  assert (ND : NoDup former) by (eapply (tC3 _ _ _ T); eauto).
+  destruct (unparent_children_TreeG former w no_ovr None r rs w1 Bw T Ers ND ltac:(intros; reflexivity) E) as [T1 F1].
+  pose proof (pframe_Base _ _ F1 Bw) as B1.
+  bind_inv H. rename r0 into rs1. destruct (pframe_rs _ _ _ _ F1 E0) as (rs' & Ers' & L1). rewrite Ers in Ers'. inversion Ers'; subst rs'.
+  set (rs2 := orphan_children rs1 former (o_lid o)) in *. set (w2 := set_rs w1 r rs2) in *.
+  bind_inv H. rename o0 into o2. assert (Eo2 : get_obj w1 x = Some o2) by exact E1.
+  destruct (pframe_obj _ _ _ _ F1 Eo2) as (o0 & Eo0 & P1 & P2 & P3 & P4). rewrite Eo in Eo0. inversion Eo0; subst o0.
+  destruct (o_children o2) eqn:Hch2; [|discriminate].
+  set (fs := fulls rs former) in *.
+  (* children entries of x *)
+  assert (CH : forall c, In c former -> exists cf co, aget c (r_local rs) = Some cf /\ get_obj w cf = Some co /\ o_parent co = l /\ l <> 0).
+  { intros c Ic. apply in_map_iff in Ic. destruct Ic as ([c' cf] & Hc' & Ic). cbn in Hc'. subst c'.
+    destruct (tC1 _ _ _ T _ _ _ _ Eo Ic) as (co & rs0 & A1 & A2 & A3 & A4 & A5 & A6 & A7).
+    rewrite Hr, Ers in A5. inversion A5; subst rs0. exists cf, co. destruct A4 as [A4 A4']. unfold epar, no_ovr in A4. inversion A4. auto. }
+  assert (PAR : forall cf a, In cf fs -> get_obj w1 cf = Some a -> o_parent a = l /\ l <> 0).
+  { intros cf a Hi Ea. apply fulls_In in Hi. destruct Hi as (c & Ic & Ec). destruct (CH c Ic) as (cf' & co & Ec' & Eco & Hp & Hl0).
+    rewrite Ec in Ec'. inversion Ec'; subst cf'. destruct (pframe_obj _ _ _ _ F1 Ea) as (a0 & Ea0 & _ & _ & _ & Q4).
+    rewrite Eco in Ea0. inversion Ea0; subst a0. split; congruence. }
+  assert (Elx1 : aget l (r_local rs1) = Some x) by (rewrite L1; exact Elx).
+  assert (Topen : TreeG w1 (odet no_ovr fs) (Some (r, l))).
+  { apply TreeG_open; [exact T1|]. intros rsA c cf co EA Ec Eco Bk. rewrite E0 in EA. inversion EA; subst rsA.
+    pose proof (tC2 _ _ _ T1 _ _ _ _ _ _ _ _ E0 Ec Eco Bk Elx1 Eo2 ltac:(intro Hk; discriminate)) as Ic.
+    rewrite Hch2 in Ic. destruct Ic. }
+  assert (T2 : TreeG w2 (oatt (odet no_ovr fs) (fulls rs1 former) l) (Some (r, l))).
+  { apply orphan_children_TreeG; auto.
+    - intros Hne. destruct former as [|c t] eqn:Ef; [congruence|]. destruct (CH c (or_introl eq_refl)) as (_ & _ & _ & _ & _ & Hl0). exact Hl0.
+    - intros c Ic. destruct (CH c Ic) as (cf & co & Ec & Eco & _). destruct (pframe_obj_rev _ _ _ _ F1 Eco) as (co1 & Eco1 & _).
+      exists cf, co1. rewrite L1. split; [exact Ec|]. split; [exact Eco1|]. unfold odet.
+      assert (M : mem cf fs = true) by (apply mem_In; apply fulls_In; eauto). rewrite M. reflexivity. }
+  rewrite (fulls_local rs rs1 former L1) in T2. fold fs in T2.
+  assert (L2 : r_local rs2 = r_local rs1).
+  { pose proof (ridx_orphan_children former rs1 (o_lid o)) as C. apply ridx_inj in C. apply C. }
+  assert (B2 : Base w2) by (eapply pframe_Base; [eapply pframe_set_rs; [exact E0|exact L2]|exact B1]).
+  assert (T2' : TreeG w2 no_ovr (Some (r, l))).
+  { eapply TreeG_bk_equiv; [|exact T2]. intros g a Eg p. change (get_obj w1 g = Some a) in Eg.
+    destruct B1 as [K1 _]. pose proof (K1 _ _ Eg) as Kg. unfold bk, epar, oatt, odet, no_ovr. rewrite Kg.
+    destruct (mem g fs) eqn:M; [|reflexivity]. apply mem_In in M. destruct (PAR _ _ M Eg) as [Hp Hl0]. rewrite Hp. reflexivity. }
+  bind_inv H. rename w0 into w3.
+  assert (Ers2 : get_rs w2 r = Some rs2) by (unfold w2; rewrite get_rs_set_rs, N.eqb_refl; reflexivity).
+  assert (Eo22 : get_obj w2 x = Some o2) by exact Eo2.
+  assert (Eidx2 : aget (o_lid o2) (r_local rs2) = Some x) by (rewrite L2, P1; exact Elx1).
+  assert (T3 : TreeG w3 (oset no_ovr x None) (Some (r, l))).
+  { eapply (TreeG_unparent w2 no_ovr _ r x (o_parent o2) o2 rs2 w3); eauto; congruence. }
+  destruct B2 as [K2 W22].
+  destruct (unparent_pres _ _ _ _ _ _ _ K2 Eo22 Ers2 E2) as (PF & PB & RF & RB).
+  pose proof (pframe_unparent _ _ _ _ _ K2 E2) as F3. assert (B3 : Base w3) by (eapply pframe_Base; [exact F3|split; assumption]).
+  destruct (PB _ _ Eo22) as (o3 & Eo3 & Q1 & Q2 & Q3 & Q4 & Q5). rewrite Hch2 in Q5.
+  assert (Hch3 : o_children o3 = []) by (rewrite Q5; destruct (is_parent_key rs2 (o_parent o2) x); reflexivity).
+  set (w4 := cancel_futures w3 r (o_lid o2)) in *.
+  bind_inv H. rename r0 into rs4. assert (Ers4 : get_rs w3 r = Some rs4) by exact E3.
+  destruct (RF _ _ Ers4) as (rs2' & Ers2' & L4). rewrite Ers2 in Ers2'. inversion Ers2'; subst rs2'.
+  destruct (aget (o_lid o2) (r_local rs4)) eqn:El4; [|discriminate]. inversion H; subst w'; clear H.
+  assert (T4 : TreeG w4 (oset no_ovr x None) (Some (r, l))) by (eapply TreeG_wext; [| |exact T3]; reflexivity).
+  assert (B4 : Base w4) by (eapply pframe_Base; [apply pframe_set_futs|exact B3]).
+  assert (Elx4 : aget l (r_local rs4) = Some x) by (rewrite L4, L2; exact Elx1).
+  rewrite P1. split.
+  - eapply (TreeG_unindex w4 _ r rs4 l x o3); eauto. unfold oset. rewrite N.eqb_refl. reflexivity.
+  - exists o3. rewrite get_obj_set_rs. split; [exact Eo3|]. split; [|exact Hch3]. unfold pcore. congruence.
+Qed.
+
+(* ---------- a detached, un-indexed, childless object may change any field but its full id ---------- *)
+Lemma TreeG_set_detached : forall w O K x o', Base w -> TreeG w O K -> O x = Some None ->
+  (forall r rs c, get_rs w r = Some rs -> aget c (r_local rs) <> Some x) ->
+  (exists ox, get_obj w x = Some ox) -> o_full o' = x -> o_children o' = [] ->
+  TreeG (set_obj w o') O K.
+Proof.
+  intros w O K x o' [Kw W2] T HO Hun (ox & Eox) Hf Hc.
+  assert (GN : forall g a, get_obj (set_obj w o') g = Some a -> (g = x /\ a = o') \/ (g <> x /\ get_obj w g = Some a)).
+  { intros g a E. rewrite get_obj_set_obj, Hf in E. destruct (g =? x) eqn:Q.
+    - apply N.eqb_eq in Q. inversion E. subst. left. auto.
+    - apply N.eqb_neq in Q. auto. }
+  assert (GO : forall g a, get_obj w g = Some a -> g <> x -> get_obj (set_obj w o') g = Some a).
+  { intros g a E Hne. rewrite get_obj_set_obj, Hf. apply N.eqb_neq in Hne. rewrite Hne. exact E. }
+  assert (NBx : forall a p, get_obj w x = Some a -> ~ bk O a p).
+  { intros a p Ea [B _]. unfold epar in B. rewrite (Kw _ _ Ea), HO in B. discriminate. }
+  constructor.
+  - intros pf po c cf E I. destruct (GN _ _ E) as [[-> ->]|[Hne E0]]; [rewrite Hc in I; destruct I|].
+    destruct (tC1 _ _ _ T _ _ _ _ E0 I) as (co & rs & A1 & A2 & A3 & A4 & A5).
+    assert (Hcf : cf <> x) by (intro; subst cf; exact (NBx _ _ A1 A4)).
+    exists co, rs. split; [apply GO; assumption|]. split; [exact A2|]. split; [exact A3|]. split; [exact A4|exact A5].
+  - intros r rs c cf co p pf po E1 E2 E3 B E4 E5 Kn. rewrite get_rs_set_obj in E1.
+    destruct (GN _ _ E3) as [[-> _]|[_ E3']]; [destruct (Hun _ _ _ E1 E2)|].
+    destruct (GN _ _ E5) as [[-> _]|[_ E5']]; [destruct (Hun _ _ _ E1 E4)|].
+    eapply (tC2 _ _ _ T); eauto.
+  - intros pf po E. destruct (GN _ _ E) as [[-> ->]|[_ E0]]; [rewrite Hc; constructor|]. eapply (tC3 _ _ _ T); eauto.
+  - intros r rs p ls c E1 E2 I. rewrite get_rs_set_obj in E1.
+    destruct (tO1 _ _ _ T _ _ _ _ _ E1 E2 I) as (A1 & A2 & cf & co & A3 & A4 & A5).
+    split; [exact A1|]. split; [exact A2|]. exists cf, co. split; [exact A3|]. split; [|exact A5].
+    apply GO; [exact A4|]. intro; subst cf. exact (Hun _ _ _ E1 A3).
+  - intros r rs c cf co p E1 E2 E3 B Hn. rewrite get_rs_set_obj in E1.
+    destruct (GN _ _ E3) as [[-> _]|[_ E3']]; [destruct (Hun _ _ _ E1 E2)|]. eapply (tO2 _ _ _ T); eauto.
+  - intros r rs p ls E1 E2. rewrite get_rs_set_obj in E1. eapply (tO3 _ _ _ T); eauto.
+Qed.
+
+(* ---------- second block of _update_existing_object when the region did not change ---------- *)
+Lemma second_block_Tree : forall w1 f o1 o2 nr (b : bool) w3, Idx w1 -> Tree w1 -> get_obj w1 f = Some o1 ->
+  o_lid o2 = o_lid o1 -> o_full o2 = o_full o1 -> o_region o2 = o_region o1 -> o_children o2 = o_children o1 ->
+  o_region o1 = nr -> (b = false -> o_parent o2 = o_parent o1) ->
+  (if b then handle_object_reparented (set_obj w1 o2) nr f (o_parent o1) else Some (set_obj w1 o2)) = Some w3 ->
+  Tree w3.
+Proof.
+  intros w1 f o1 o2 nr b w3 I T Eo H1 H2 H3 H4 Hr Hb H. pose proof I as (K & A & B). pose proof (K _ _ Eo) as Kf.
+  destruct b.
+  - destruct (B _ _ Eo) as (rs & Ers & _ & Elx). rewrite Hr in Ers.
+    assert (T2 : TreeG (set_obj w1 o2) (oset no_ovr f (Some (o_parent o1))) None).
+    { eapply TreeG_set_fields; eauto. apply Idx_Base. exact I. }
+    assert (B2 : Base (set_obj w1 o2)).
+    { eapply frame_Base; [|apply Idx_Base; exact I]. eapply (frame_set_obj w1 f o1); [exact Eo| |exact Kf]. unfold core. congruence. }
+    eapply (reparent_Tree (set_obj w1 o2) nr f (o_parent o1) o2 rs w3); eauto.
+    + rewrite get_obj_set_obj, H2, Kf, N.eqb_refl. reflexivity.
+    + congruence.
+    + rewrite H1. exact Elx.
+  - inversion H; subst w3. eapply tframe_TreeG; [|exact T]. eapply (tframe_set_obj w1 f o1); [exact Eo| |exact Kf].
+    unfold tcore. rewrite (Hb eq_refl). congruence.
+Qed.
+
+Lemma tcore_inj' : forall o a b c d e, tcore o = (a, b, c, d, e) ->
+  o_lid o = a /\ o_full o = b /\ o_region o = c /\ o_parent o = d /\ o_children o = e.
+Proof. unfold tcore. intros. inversion H. auto. Qed.
+
+(* ---------- track_object keeps lid / full / region / parent of every object ---------- *)
+Lemma adopt_pframe : forall ls w r w', keys_ok w -> adopt w r ls = Some w' -> pframe w w'.
+Proof.
+  induction ls as [|c t IH]; intros w r w' K H; simpl in H.
+  - inversion H. apply pframe_refl.
+  - bind_inv H. destruct (aget c (r_local r0)); [|discriminate]. bind_inv H.
+    pose proof (pframe_parent _ _ _ _ _ K E0) as F1. eapply pframe_trans; [exact F1|]. eapply IH; [|exact H].
+    eapply frame_keys; [eapply frame_parent_object; eauto|exact K].
+Qed.
+
+Lemma track_object_pcore : forall w r f w', keys_ok w -> track_object w r f = Some w' ->
+  forall g, option_map pcore (get_obj w' g) = option_map pcore (get_obj w g).
+Proof.
+  intros w r f w' K H. unfold track_object in H. bind_inv H. bind_inv H. rename r0 into rs.
+  match type of H with bind (parent_object ?W _ _ _) _ = _ => set (w1 := W) in * end.
+  bind_inv H. rename w0 into w2. assert (K1 : keys_ok w1) by exact K.
+  pose proof (pframe_parent _ _ _ _ _ K1 E1) as F2.
+  bind_inv H. rename r0 into rs2. destruct (collect_orphans rs2 (o_lid o)) as [orph rs3] eqn:Ec.
+  assert (K2 : keys_ok w2) by (eapply frame_keys; [eapply frame_parent_object; eauto|exact K1]).
+  assert (K3 : keys_ok (set_rs w2 r rs3)) by exact K2.
+  pose proof (adopt_pframe _ _ _ _ K3 H) as F4.
+  intros g. destruct F4 as [F4 _]. destruct F2 as [F2 _]. rewrite F4. change (get_obj (set_rs w2 r rs3) g) with (get_obj w2 g).
+  rewrite F2. reflexivity.
+Qed.
+
+Ltac hooks_ttac H :=
+  match type of H with (if ?b then _ else _) = _ => destruct b end;
+  [ bind_inv H; match type of H with match ?x with _ => _ end = _ => destruct x end;
+    inversion H; [apply tframe_set_futs | apply tframe_refl]
+  | inversion H; apply tframe_refl ].
+
+(* ---------- _update_existing_object ---------- *)
+Lemma update_existing_Tree : forall w f p k w', Idx w -> Tree w ->
+  (forall o, get_obj w f = Some o ->
+     region_state w (dflt (p_region p) (o_region o)) <> None /\
+     lid_unique w (dflt (p_region p) (o_region o)) (dflt (p_lid p) (o_lid o)) f /\
+     (o_region o <> dflt (p_region p) (o_region o) ->
+        dflt (p_parent p) (o_parent o) <> dflt (p_lid p) (o_lid o)) /\
+     (o_region o = dflt (p_region p) (o_region o) -> o_lid o <> dflt (p_lid p) (o_lid o) ->
+        o_parent o <> dflt (p_lid p) (o_lid o))) ->
+  update_existing w f p k = Some w' -> Tree w'.
+Proof.
+  intros w f p k w' I T Hok H. pose proof I as (K & A & B). unfold update_existing in H.
+  bind_inv H. rename E into Eo. destruct (Hok _ eq_refl) as (Hnew & Huniq & Hself1 & Hself2). clear Hok.
+  pose proof (K _ _ Eo) as Kf.
+  destruct (B _ _ Eo) as (rso & Erso & Htso & Elo).
+  assert (Eold : region_state w (o_region o) = Some rso).
+  { unfold region_state. rewrite Erso, Htso. reflexivity. }
+  rewrite Eold in H.
+  set (nr := dflt (p_region p) (o_region o)) in *. set (nl := dflt (p_lid p) (o_lid o)) in *.
+  set (np := dflt (p_parent p) (o_parent o)) in *.
+  destruct (region_state w nr) as [rsn|] eqn:Enew; [|congruence]. clear Hnew.
+  apply region_state_some in Enew. destruct Enew as [Ersn Htn].
+  destruct (o_region o =? nr) eqn:Qr; cbn [negb andb is_some] in H.
+  - (* same region *)
+    apply N.eqb_eq in Qr.
+    assert (Qr2 : (nr =? o_region o) = true) by (apply N.eqb_eq; congruence).
+    destruct (o_lid o =? nl) eqn:Ql; cbn [negb andb is_some] in H.
+    + (* same lid *)
+      apply N.eqb_eq in Ql. cbn [bind] in H. rewrite Eo in H. cbn [bind] in H.
+      destruct (update_properties o p) as [o2 ch1] eqn:Eu.
+      pose proof (update_properties_tcore _ _ _ _ Eu) as C. apply tcore_inj' in C.
+      rewrite Qr2 in H. cbn [negb andb] in H.
+      bind_inv H. rename w0 into w3.
+      assert (T3 : Tree w3).
+      { cbn in C. destruct C as (U1 & U2 & U3 & U4 & U5).
+        eapply (second_block_Tree w f o o2 nr _ w3 I T Eo); [| | | | | |exact E].
+        - transitivity nl; [exact U1|symmetry; exact Ql].
+        - exact U2.
+        - transitivity nr; [exact U3|symmetry; exact Qr].
+        - exact U5.
+        - exact Qr.
+        - intros Hb. rewrite andb_true_r in Hb. apply negb_false_iff in Hb. apply N.eqb_eq in Hb.
+          transitivity np; [exact U4|exact Hb]. }
+      eapply tframe_TreeG; [|exact T3]. hooks_ttac H.
+    + (* local id changes inside the region *)
+      apply N.eqb_neq in Ql.
+      bind_inv H. rename w0 into w1. bind_inv H. rename o0 into o1. bind_inv H. rename w0 into w2.
+      cbn [bind] in H.
+      destruct (untrack_IdxX _ _ _ _ _ I Eo eq_refl E) as (IX1 & (o1' & Eo1' & C1) & FO1 & FR1).
+      rewrite E0 in Eo1'. inversion Eo1'; subst o1'; clear Eo1'.
+      pose proof (core_inj _ _ C1) as (C1l & C1f & C1r).
+      destruct (untrack_object_TreeG _ _ _ _ _ I T Eo eq_refl E) as (TG1 & o1' & Eo1' & P1 & Hch1).
+      rewrite E0 in Eo1'. inversion Eo1'; subst o1'; clear Eo1'.
+      assert (P1p : o_parent o1 = o_parent o) by (unfold pcore in P1; congruence).
+      assert (UNI : forall r rs c, get_rs w1 r = Some rs -> aget c (r_local rs) <> Some f).
+      { intros r rs c E1' E2'. destruct IX1 as (_ & AX & _). destruct (AX _ _ _ _ E1' E2') as [Hne _]. congruence. }
+      assert (TG1' : TreeG (set_obj w1 (with_lid o1 nl)) (oset no_ovr f None) None).
+      { eapply TreeG_set_detached; [eapply IdxX_Base; exact IX1|exact TG1| |exact UNI|eauto| |exact Hch1].
+        - unfold oset. rewrite N.eqb_refl. reflexivity.
+        - cbn. congruence. }
+      assert (IX1' : IdxX (set_obj w1 (with_lid o1 nl)) f).
+      { apply IdxX_set_obj; [exact IX1|]. cbn. congruence. }
+      assert (Eo1n : get_obj (set_obj w1 (with_lid o1 nl)) f = Some (with_lid o1 nl)).
+      { rewrite get_obj_set_obj. cbn. rewrite C1f, Kf, N.eqb_refl. reflexivity. }
+      assert (Hfree : exists rs, get_rs (set_obj w1 (with_lid o1 nl)) (o_region o) = Some rs /\ r_tracked rs = true /\
+                                 aget (o_lid (with_lid o1 nl)) (r_local rs) = None).
+      { rewrite get_rs_set_obj. specialize (FR1 (o_region o)). rewrite Erso in FR1. cbn in FR1.
+        destruct (get_rs w1 (o_region o)) as [rs1|]; cbn in FR1; [|discriminate].
+        unfold ridx, ridx_del in FR1. rewrite N.eqb_refl in FR1. inversion FR1 as [[Ft Fl]].
+        exists rs1. split; [reflexivity|]. split; [congruence|]. cbn. rewrite Fl, aget_adel.
+        destruct (nl =? o_lid o) eqn:Q; [reflexivity|].
+        destruct (aget nl (r_local rso)) as [g|] eqn:Eg; [|reflexivity].
+        rewrite <- Qr in Huniq. pose proof (Huniq _ _ Erso Eg) as ->.
+        destruct (A _ _ _ _ Erso Eg) as (og & Eog & Hl & _). rewrite Eo in Eog. inversion Eog; subst og.
+        rewrite Hl, N.eqb_refl in Q. discriminate. }
+      destruct (track_Idx _ _ _ _ _ IX1' Eo1n (eq_trans C1r eq_refl) Hfree E1) as [I2 FO2].
+      destruct Hfree as (rsf & Ersf & _ & Hfr).
+      assert (T2 : Tree w2).
+      { eapply (track_object_Tree _ (o_region o) f (with_lid o1 nl) rsf w2); [eapply IdxX_Base; exact IX1'|exact TG1'|exact Eo1n| |exact Ersf|exact Hfr| |exact E1].
+        - cbn. exact C1r.
+        - cbn. rewrite P1p. apply Hself2; [exact Qr|exact Ql]. }
+      pose proof IX1' as (K1' & _).
+      pose proof (track_object_pcore _ _ _ _ K1' E1 f) as PC. rewrite Eo1n in PC.
+      bind_inv H. rename o0 into o1b. try rewrite E2 in PC. cbn in PC. inversion PC as [[Cbl Cbf Cbr Cbp]].
+      destruct (update_properties o1b p) as [o2 ch1] eqn:Eu.
+      pose proof (update_properties_tcore _ _ _ _ Eu) as C. apply tcore_inj' in C.
+      rewrite Qr2 in H. cbn [negb andb] in H.
+      bind_inv H. rename w0 into w3.
+      assert (Dl : dflt (p_lid p) nl = nl) by (unfold nl; destruct (p_lid p); reflexivity).
+      assert (Dr : dflt (p_region p) (o_region o) = nr) by reflexivity.
+      assert (T3 : Tree w3).
+      { rewrite <- P1p, <- Cbp in E3.
+        cbn in C. destruct C as (U1 & U2 & U3 & U4 & U5).
+        eapply (second_block_Tree w2 f o1b o2 nr _ w3 I2 T2 E2); [| | | | | |exact E3].
+        - rewrite U1, Cbl. exact Dl.
+        - exact U2.
+        - rewrite U3, Cbr, C1r. transitivity nr; [exact Dr|symmetry; exact Qr].
+        - exact U5.
+        - rewrite Cbr, C1r. exact Qr.
+        - intros Hb. rewrite andb_true_r in Hb. apply negb_false_iff in Hb. apply N.eqb_eq in Hb.
+          transitivity np; [rewrite U4, Cbp, P1p; reflexivity|exact Hb]. }
+      eapply tframe_TreeG; [|exact T3]. hooks_ttac H.
+  - (* region changes *)
+    apply N.eqb_neq in Qr.
+    bind_inv H. rename w0 into w1. cbn [bind] in H.
+    destruct (untrack_IdxX _ _ _ _ _ I Eo eq_refl E) as (IX1 & (o1 & Eo1 & C1) & FO1 & FR1).
+    rewrite Eo1 in H. cbn [bind] in H.
+    pose proof (core_inj _ _ C1) as (C1l & C1f & C1r).
+    destruct (untrack_object_TreeG _ _ _ _ _ I T Eo eq_refl E) as (TG1 & o1' & Eo1' & P1 & Hch1).
+    rewrite Eo1 in Eo1'. inversion Eo1'; subst o1'; clear Eo1'.
+    assert (P1p : o_parent o1 = o_parent o) by (unfold pcore in P1; congruence).
+    destruct (update_properties o1 p) as [o2 ch1] eqn:Eu.
+    pose proof (update_properties_tcore _ _ _ _ Eu) as C. apply tcore_inj' in C. cbn in C. destruct C as (U1 & U2 & U3 & U4 & U5).
+    assert (Qr2 : (nr =? o_region o) = false) by (apply N.eqb_neq; congruence).
+    rewrite Qr2 in H. cbn [negb] in H.
+    bind_inv H. rename w0 into w3.
+    assert (UNI : forall r rs c, get_rs w1 r = Some rs -> aget c (r_local rs) <> Some f).
+    { intros r rs c E1' E2'. destruct IX1 as (_ & AX & _). destruct (AX _ _ _ _ E1' E2') as [Hne _]. congruence. }
+    assert (TG2 : TreeG (set_obj w1 o2) (oset no_ovr f None) None).
+    { eapply TreeG_set_detached; [eapply IdxX_Base; exact IX1|exact TG1| |exact UNI|eauto| |congruence].
+      - unfold oset. rewrite N.eqb_refl. reflexivity.
+      - congruence. }
+    assert (IX2 : IdxX (set_obj w1 o2) f).
+    { apply IdxX_set_obj; [exact IX1|]. congruence. }
+    assert (Eo2 : get_obj (set_obj w1 o2) f = Some o2).
+    { rewrite get_obj_set_obj. rewrite U2, C1f, Kf, N.eqb_refl. reflexivity. }
+    assert (Hr2 : o_region o2 = nr) by (rewrite U3, C1r; reflexivity).
+    assert (Hfree : exists rs, get_rs (set_obj w1 o2) nr = Some rs /\ aget (o_lid o2) (r_local rs) = None).
+    { rewrite get_rs_set_obj. specialize (FR1 nr). rewrite Ersn in FR1. cbn in FR1.
+      destruct (get_rs w1 nr) as [rs1|]; cbn in FR1; [|discriminate].
+      unfold ridx, ridx_del in FR1. rewrite Qr2 in FR1. inversion FR1 as [[Ft Fl]].
+      exists rs1. split; [reflexivity|]. rewrite Fl, U1, C1l. fold nl.
+      destruct (aget nl (r_local rsn)) as [g|] eqn:Eg; [|reflexivity].
+      pose proof (Huniq _ _ Ersn Eg) as ->.
+      destruct (A _ _ _ _ Ersn Eg) as (og & Eog & _ & Hrg). rewrite Eo in Eog. inversion Eog; subst og. congruence. }
+    destruct Hfree as (rsf & Ersf & Hfr).
+    assert (T3 : Tree w3).
+    { eapply (track_object_Tree _ nr f o2 rsf w3); [eapply IdxX_Base; exact IX2|exact TG2|exact Eo2|exact Hr2|exact Ersf|exact Hfr| |exact E0].
+      rewrite U4, U1, P1p, C1l. apply Hself1. exact Qr. }
+    eapply tframe_TreeG; [|exact T3]. hooks_ttac H.
 Qed.
